@@ -908,3 +908,154 @@ package decimal128
 //@ forall h u64
 //@ holds h == ((h / 72057594037927936) % 256)*72057594037927936 + ((h / 281474976710656) % 256)*281474976710656 + ((h / 1099511627776) % 256)*1099511627776 + ((h / 4294967296) % 256)*4294967296 + ((h / 16777216) % 256)*16777216 + ((h / 65536) % 256)*65536 + ((h / 256) % 256)*256 + (h % 256)
 //@ props C12
+
+// ---------------------------------------------------------------------------
+// rounding.go: Round / Ceil / Floor (C08). q = 6176 - dp is the biased exponent
+// of the quantum 10^-dp (a mathematical integer; dp is any int). V: exact
+// magnitude of d. C: the integer number of quanta the mode selects for V (any
+// C with QuantOK — it is unique), VC: the magnitude C x 10^-dp as a real.
+// ---------------------------------------------------------------------------
+
+//@ func Decimal.Round
+//@ uses rssteps=1 rsmono=0,1,36
+//@ returns (r)
+//@ logical V real, C int, VC real
+//@ requires mode <= 5
+//@ requires !special(d) && coef(d) != 0 ==> V > 0 && rs(V, bexp(d)) == coef(d)
+//@ requires !special(d) && coef(d) != 0 && bexp(d) < 6176 - dp ==> QuantOK(mode, sign(d), rs(V, 6176 - dp), C) && VC >= 0 && rs(VC, 6176 - dp) == C
+//@ mention rs(VC, 12287) + rs(VC, 0)
+//@ ensures special(d) ==> r == d
+//@ ensures !special(d) && coef(d) == 0 ==> !special(r) && coef(r) == 0 && bexp(r) == 0 && sign(r) == sign(d)
+//@ ensures !special(d) && coef(d) != 0 && bexp(d) >= 6176 - dp ==> r == d
+//@ ensures !special(d) && coef(d) != 0 && bexp(d) < 6176 - dp && rs(V, 6176 - dp) < 0.1 ==> !special(r) && coef(r) == 0 && bexp(r) == 0 && sign(r) == sign(d)
+//@ ensures !special(d) && coef(d) != 0 && bexp(d) < 6176 - dp && rs(V, 6176 - dp) >= 0.1 ==> sign(r) == sign(d) && !isnan(r)
+//@    && (!special(r) ==> rs(VC, bexp(r)) == coef(r)) && (isinf(r) ==> rs(VC, 12287) > M)
+//@ loop 1: invariant RS(rs(V, iexp), u128(sig), trunc, digit) && trunc >= 0 && (u128(sig) != 0 || digit != 0) && u128(sig) <= M
+//@ loop 1: invariant iexp <= dp && iexp >= bexp(d) && iexp >= 0
+//@ loop 1: decreases dp - iexp
+//@ loop 2: invariant rs(VC, exp) == u128(sig) && u128(sig) != 0 && u128(sig) <= M && exp >= 12287 && exp <= 32101
+//@ loop 2: decreases exp
+//@ assert before "if exp > maxBiasedExponent {": iexp == 6176 - old(dp) && (C == u128(sig) || (exp == iexp + 1 && C == M + 1))
+//@ cut before "if exp > maxBiasedExponent {": havoc sig, exp:
+//@    neg == sign(d) && !special(d) && coef(d) != 0 && bexp(d) < 6176 - old(dp) && rs(V, 6176 - old(dp)) >= 0.1
+//@    && rs(VC, exp) == u128(sig) && u128(sig) <= M && 0 <= exp && exp <= 32101
+//@ props C08 C15 C19 C20
+
+//@ lemma quant_unique
+//@ forall rm int, neg bool, x real, c1 int, c2 int
+//@ hyp 0 <= rm && rm <= 5 && x >= 0 && QuantOK(rm, neg, x, c1) && QuantOK(rm, neg, x, c2)
+//@ holds c1 == c2
+//@ props C08
+
+//@ func Decimal.Ceil
+//@ uses rssteps=1 rsmono=0,1,36
+//@ returns (r)
+//@ logical V real, C int, VC real
+//@ requires !special(d) && coef(d) != 0 ==> V > 0 && rs(V, bexp(d)) == coef(d)
+//@ requires !special(d) && coef(d) != 0 && bexp(d) < 6176 - dp ==> QuantOK(5, sign(d), rs(V, 6176 - dp), C) && VC >= 0 && rs(VC, 6176 - dp) == C
+//@ mention rs(VC, 12287) + rs(VC, 0)
+//@ ensures special(d) ==> r == d
+//@ ensures !special(d) && coef(d) == 0 ==> !special(r) && coef(r) == 0 && bexp(r) == 0 && sign(r) == sign(d)
+//@ ensures !special(d) && coef(d) != 0 && bexp(d) >= 6176 - dp ==> r == d
+//@ ensures !special(d) && coef(d) != 0 && bexp(d) < 6176 - dp ==> sign(r) == sign(d) && !isnan(r)
+//@    && (!special(r) ==> rs(VC, bexp(r)) == coef(r)) && (isinf(r) ==> rs(VC, 12287) > M)
+//@ loop 1: invariant 0 <= trunc && trunc <= 1 && iexp <= dp && iexp >= 0 && u128(sig) <= M
+//@ loop 1: invariant (u128(sig) <= rs(V, iexp) && rs(V, iexp) < u128(sig) + 1 && (trunc == 0 ==> rs(V, iexp) == u128(sig)) && (trunc != 0 ==> rs(V, iexp) > u128(sig)) && iexp >= bexp(d) && old(dp) >= 0 - 12323)
+//@    || (iexp == dp && trunc == 0 && u128(sig) == 1 && !sign(d) && rs(V, dp) < 1)
+//@ loop 1: decreases dp - iexp
+//@ assert before "neg := d.Signbit()": 0 <= trunc && trunc <= 1 && u128(sig) <= M &&
+//@    ((old(dp) >= 0 - 12323 && iexp == 6176 - old(dp) && C == ite(!sign(d), u128(sig) + trunc, u128(sig)))
+//@  || (old(dp) < 0 - 12323 && iexp == 18499 && trunc == 0 && u128(sig) == 1 && !sign(d)))
+//@ loop 2: invariant !neg && exp >= 0 && exp <= 32001 && u128(sig) <= M && ((trunc == 1 && C == u128(sig) + 1 && exp == 6176 - old(dp)) || (trunc == 0 && rs(VC, exp) == u128(sig)) || (old(dp) < 0 - 12323 && trunc == 0 && exp == 18499 && u128(sig) == 1))
+//@ loop 2: decreases trunc
+//@ cut before "if exp > maxBiasedExponent {": havoc sig, exp, trunc:
+//@    neg == sign(d) && !special(d) && coef(d) != 0 && bexp(d) < 6176 - old(dp)
+//@    && u128(sig) <= M && 0 <= exp && exp <= 32101
+//@    && (rs(VC, exp) == u128(sig) || (old(dp) < 0 - 12323 && exp == 18499 && u128(sig) == 1 && !sign(d)))
+//@ loop 3: invariant u128(sig) != 0 && u128(sig) <= M && exp >= 12287 && exp <= 32101 && (rs(VC, exp) == u128(sig) || (old(dp) < 0 - 12323 && exp >= 18465 && exp <= 18499 && u128(sig) == p10(18499 - exp)))
+//@ loop 3: decreases exp
+//@ props C08 C15 C19 C20
+
+//@ func Decimal.Floor
+//@ uses rssteps=1 rsmono=0,1,36
+//@ returns (r)
+//@ logical V real, C int, VC real
+//@ requires !special(d) && coef(d) != 0 ==> V > 0 && rs(V, bexp(d)) == coef(d)
+//@ requires !special(d) && coef(d) != 0 && bexp(d) < 6176 - dp ==> QuantOK(4, sign(d), rs(V, 6176 - dp), C) && VC >= 0 && rs(VC, 6176 - dp) == C
+//@ mention rs(VC, 12287) + rs(VC, 0)
+//@ ensures special(d) ==> r == d
+//@ ensures !special(d) && coef(d) == 0 ==> !special(r) && coef(r) == 0 && bexp(r) == 0 && sign(r) == sign(d)
+//@ ensures !special(d) && coef(d) != 0 && bexp(d) >= 6176 - dp ==> r == d
+//@ ensures !special(d) && coef(d) != 0 && bexp(d) < 6176 - dp ==> sign(r) == sign(d) && !isnan(r)
+//@    && (!special(r) ==> rs(VC, bexp(r)) == coef(r)) && (isinf(r) ==> rs(VC, 12287) > M)
+//@ loop 1: invariant 0 <= trunc && trunc <= 1 && iexp <= dp && iexp >= 0 && u128(sig) <= M
+//@ loop 1: invariant (u128(sig) <= rs(V, iexp) && rs(V, iexp) < u128(sig) + 1 && (trunc == 0 ==> rs(V, iexp) == u128(sig)) && (trunc != 0 ==> rs(V, iexp) > u128(sig)) && iexp >= bexp(d) && old(dp) >= 0 - 12323)
+//@    || (iexp == dp && trunc == 0 && u128(sig) == 1 && sign(d) && rs(V, dp) < 1)
+//@ loop 1: decreases dp - iexp
+//@ assert before "neg := d.Signbit()": 0 <= trunc && trunc <= 1 && u128(sig) <= M &&
+//@    ((old(dp) >= 0 - 12323 && iexp == 6176 - old(dp) && C == ite(sign(d), u128(sig) + trunc, u128(sig)))
+//@  || (old(dp) < 0 - 12323 && iexp == 18499 && trunc == 0 && u128(sig) == 1 && sign(d)))
+//@ loop 2: invariant neg && exp >= 0 && exp <= 32001 && u128(sig) <= M && ((trunc == 1 && C == u128(sig) + 1 && exp == 6176 - old(dp)) || (trunc == 0 && rs(VC, exp) == u128(sig)) || (old(dp) < 0 - 12323 && trunc == 0 && exp == 18499 && u128(sig) == 1))
+//@ loop 2: decreases trunc
+//@ cut before "if exp > maxBiasedExponent {": havoc sig, exp, trunc:
+//@    neg == sign(d) && !special(d) && coef(d) != 0 && bexp(d) < 6176 - old(dp)
+//@    && u128(sig) <= M && 0 <= exp && exp <= 32101
+//@    && (rs(VC, exp) == u128(sig) || (old(dp) < 0 - 12323 && exp == 18499 && u128(sig) == 1 && sign(d)))
+//@ loop 3: invariant u128(sig) != 0 && u128(sig) <= M && exp >= 12287 && exp <= 32101 && (rs(VC, exp) == u128(sig) || (old(dp) < 0 - 12323 && exp >= 18465 && exp <= 18499 && u128(sig) == p10(18499 - exp)))
+//@ loop 3: decreases exp
+//@ props C08 C15 C19 C20
+
+// package-level wrappers: Ceil(d) = d.Ceil(0), Floor(d) = d.Floor(0), Round(d) = d.Round(0, ToNearestAway), Trunc(d) = d.Round(0, ToZero)
+//@ func Ceil
+//@ uses rssteps=1 rsmono=0,1,36
+//@ returns (r)
+//@ logical V real, C int, VC real
+//@ requires !special(d) && coef(d) != 0 ==> V > 0 && rs(V, bexp(d)) == coef(d)
+//@ requires !special(d) && coef(d) != 0 && bexp(d) < 6176 ==> QuantOK(5, sign(d), rs(V, 6176), C) && VC >= 0 && rs(VC, 6176) == C
+//@ mention rs(VC, 12287) + rs(VC, 0)
+//@ ensures special(d) ==> r == d
+//@ ensures !special(d) && coef(d) == 0 ==> !special(r) && coef(r) == 0 && bexp(r) == 0 && sign(r) == sign(d)
+//@ ensures !special(d) && coef(d) != 0 && bexp(d) >= 6176 ==> r == d
+//@ ensures !special(d) && coef(d) != 0 && bexp(d) < 6176 ==> sign(r) == sign(d) && !special(r) && rs(VC, bexp(r)) == coef(r)
+//@ props C08 C19 C20
+
+//@ func Floor
+//@ uses rssteps=1 rsmono=0,1,36
+//@ returns (r)
+//@ logical V real, C int, VC real
+//@ requires !special(d) && coef(d) != 0 ==> V > 0 && rs(V, bexp(d)) == coef(d)
+//@ requires !special(d) && coef(d) != 0 && bexp(d) < 6176 ==> QuantOK(4, sign(d), rs(V, 6176), C) && VC >= 0 && rs(VC, 6176) == C
+//@ mention rs(VC, 12287) + rs(VC, 0)
+//@ ensures special(d) ==> r == d
+//@ ensures !special(d) && coef(d) == 0 ==> !special(r) && coef(r) == 0 && bexp(r) == 0 && sign(r) == sign(d)
+//@ ensures !special(d) && coef(d) != 0 && bexp(d) >= 6176 ==> r == d
+//@ ensures !special(d) && coef(d) != 0 && bexp(d) < 6176 ==> sign(r) == sign(d) && !special(r) && rs(VC, bexp(r)) == coef(r)
+//@ props C08 C19 C20
+
+//@ func Round
+//@ uses rssteps=1 rsmono=0,1,36
+//@ returns (r)
+//@ logical V real, C int, VC real
+//@ requires !special(d) && coef(d) != 0 ==> V > 0 && rs(V, bexp(d)) == coef(d)
+//@ requires !special(d) && coef(d) != 0 && bexp(d) < 6176 ==> QuantOK(1, sign(d), rs(V, 6176), C) && VC >= 0 && rs(VC, 6176) == C
+//@ mention rs(VC, 12287) + rs(VC, 0)
+//@ ensures special(d) ==> r == d
+//@ ensures !special(d) && coef(d) == 0 ==> !special(r) && coef(r) == 0 && bexp(r) == 0 && sign(r) == sign(d)
+//@ ensures !special(d) && coef(d) != 0 && bexp(d) >= 6176 ==> r == d
+//@ ensures !special(d) && coef(d) != 0 && bexp(d) < 6176 && rs(V, 6176) < 0.1 ==> !special(r) && coef(r) == 0 && bexp(r) == 0 && sign(r) == sign(d)
+//@ ensures !special(d) && coef(d) != 0 && bexp(d) < 6176 && rs(V, 6176) >= 0.1 ==> sign(r) == sign(d) && !special(r) && rs(VC, bexp(r)) == coef(r)
+//@ props C08 C19 C20
+
+//@ func Trunc
+//@ uses rssteps=1 rsmono=0,1,36
+//@ returns (r)
+//@ logical V real, C int, VC real
+//@ requires !special(d) && coef(d) != 0 ==> V > 0 && rs(V, bexp(d)) == coef(d)
+//@ requires !special(d) && coef(d) != 0 && bexp(d) < 6176 ==> QuantOK(2, sign(d), rs(V, 6176), C) && VC >= 0 && rs(VC, 6176) == C
+//@ mention rs(VC, 12287) + rs(VC, 0)
+//@ ensures special(d) ==> r == d
+//@ ensures !special(d) && coef(d) == 0 ==> !special(r) && coef(r) == 0 && bexp(r) == 0 && sign(r) == sign(d)
+//@ ensures !special(d) && coef(d) != 0 && bexp(d) >= 6176 ==> r == d
+//@ ensures !special(d) && coef(d) != 0 && bexp(d) < 6176 && rs(V, 6176) < 0.1 ==> !special(r) && coef(r) == 0 && bexp(r) == 0 && sign(r) == sign(d)
+//@ ensures !special(d) && coef(d) != 0 && bexp(d) < 6176 && rs(V, 6176) >= 0.1 ==> sign(r) == sign(d) && !special(r) && rs(VC, bexp(r)) == coef(r)
+//@ props C08 C19 C20
